@@ -327,7 +327,7 @@ def gen_cases(tier, seed):
             cases.append({"kind": "gen", "l": l, "carts": [list(c) for c in p], "labels": default_labels(l),
                           "side": SIDES[k % 2], "stream": "cart-perm"})
     if quick:
-        for k in range(1200):
+        for k in range(5000):
             p = default_comps(3)
             rng.shuffle(p)
             cases.append({"kind": "gen", "l": 3, "carts": p, "labels": default_labels(3), "side": SIDES[k % 2],
@@ -348,7 +348,7 @@ def gen_cases(tier, seed):
                               "as_tuple": k % 3 == 0, "stream": "label-pattern"})
                 k += 1
     # random conventions above (both orders shuffled, random signs)
-    nrand = 12 if quick else 150
+    nrand = 30 if quick else 150
     for l in range(3, 11):
         for k in range(nrand if l <= 8 else max(3, nrand // 4)):
             comps = default_comps(l)
